@@ -57,7 +57,13 @@ RULE = ("jc: (the text of matrix_bincount2d regenerated from libinfo.pyx, Gen/In
         "unchanged when the states of ONE feature of Y are relabelled. jcthr: 200 000-400 000 frames, 2-3 states, one feature "
         "pair as 1-D or (n,1) arrays (and a few 2-3 feature shapes), all dtypes, thread counts 1, three of {2,3,4,8,16}, 1 again, "
         "3 repeats each: every table equals a pure-NumPy bincount and the single-thread table (not evaluated in Coq: "
-        "too long for vm_compute)")
+        "too long for vm_compute). jcx: every entry point of the counting kernels (joint_counts on 2-D and on 1-D arrays, "
+        "mi_matrix pooling with and without a well-formed pair pooled first, libinfo.matrix_bincount2d and the 1-D kernel "
+        "libinfo.bincount2d called directly, contiguous and strided) x {valid: exact table; ids a multiple of 2^8 / 2^16 / 2^32 "
+        "away from a legal id in every wider element type (legal + 2^k, + 3*2^k, legal - 2^k, the type's minimum, the top "
+        "bit); negative ids; ids >= n; lengths differing by one; no frames on one side against frames on the other (either "
+        "side)}: rejected (an exception, no crash) or counted exactly, also compared with the model joint_counts / "
+        "pooled_counts / the regenerated kernel text")
 TRUSTED = ["translator/tr_infopy.py (mutual_info.py: joint_counts, mutual_information, _validate_feature_states_array, "
            "channel_capacity_normalization, mi_matrix, weighted_mi; entropy.py: shannon_entropy, kl_divergence (1-D and 2-D) -> Gen/MutualInfoGen.v, "
            "Gen/EntropyGen.v, proved equal to the model for all inputs; vocabulary Base/InfoPyBase.v: NumPy axes/broadcast/"
@@ -465,6 +471,72 @@ def _gen_mihist(rng):
             "hist": how, "relabel_one": [rng.randrange(f), sig], "cut": rng.randint(1, T - 1)}
 
 
+# ---- round 3s (second wave): every entry point of the counting kernels x every way an input can be out of range -----
+VIAS = ["jc2d", "jc1d", "kernel1d", "kernel2d", "mimat"]
+XBADS = ["wrap", "wrap", "wrap", "wrap", "neg", "big", "len", "len0", "len0", None, None]
+_BITS = {d: np.dtype(d).itemsize * 8 for d in DTYPES}
+
+
+def _gen_jcx(rng, via, bad):
+    """the pair-table kernels through every public entry point -- joint_counts on 2-D and on 1-D arrays, mi_matrix's
+    pooling, libinfo.matrix_bincount2d and the 1-D kernel libinfo.bincount2d called directly -- on valid input (exact
+    counts) and on input that must be rejected: ids that are a multiple of 2^8 / 2^16 / 2^32 away from a legal id
+    (a kernel that narrows ids before testing them would count them as that legal id), negative ids, ids >= n,
+    arrays of different lengths, one array without frames against one with frames"""
+    oned = via in ("jc1d", "kernel1d")
+    fa, fb = (1, 1) if oned else (rng.randint(1, 3), rng.randint(1, 3))
+    nx, ny = rng.randint(2, 5), rng.randint(2, 5)
+    T = rng.randint(1, 6)
+    X = [[rng.randrange(nx) for _ in range(fa)] for _ in range(T)]
+    Y = [[rng.randrange(ny) for _ in range(fb)] for _ in range(T)]
+    side = rng.choice(["X", "Y"])
+    same = via.startswith("kernel") or rng.random() < 0.5        # (the kernels take two arrays of one element type)
+    c = {"kind": "jcx", "via": via, "bad": bad, "side": side, "nx": nx, "ny": ny, "fx": fa, "fy": fb,
+         "thr": rng.randint(1, 4), "strided": oned and rng.random() < 0.4, "lead": None}
+    A, n = (X, nx) if side == "X" else (Y, ny)
+    dbad = rng.choice(DTYPES)
+    if bad == "wrap":
+        mb = rng.choice([8, 16, 32, 32, 32])
+        dbad = rng.choice([d for d in DTYPES if _BITS[d] > mb])
+        B, signed = _BITS[dbad], not dbad.startswith("u")
+        legal = rng.randrange(n)
+        form = rng.choice(["+", "+", "3x", "-", "min", "top"])
+        hi = B - 2 if signed else B - 1                           # largest k with legal + 2^k in the type
+        if form == "-" and signed:
+            v = legal - 2 ** rng.randint(mb, B - 1)
+        elif form == "min" and signed:
+            v, legal = -2 ** (B - 1), 0
+        elif form == "3x" and hi - 2 >= mb:
+            v = legal + 3 * 2 ** rng.randint(mb, hi - 2)
+        elif form == "top":
+            v = legal + 2 ** hi
+        else:
+            v = legal + 2 ** rng.randint(mb, hi)
+        assert v % 2 ** mb == legal and not 0 <= v < n and int(np.iinfo(dbad).min) <= v <= int(np.iinfo(dbad).max)
+        A[rng.randrange(T)][0 if rng.random() < 0.7 else rng.randrange(len(A[0]))] = v
+        c["wrap"] = {"mod": mb, "legal": legal, "id": v}
+    elif bad == "neg":
+        dbad = rng.choice(DTYPES[:4])
+        A[rng.randrange(T)][rng.randrange(len(A[0]))] = -rng.choice([1, 1, 2, n, 128])
+    elif bad == "big":
+        A[rng.randrange(T)][rng.randrange(len(A[0]))] = rng.choice([n, n, n + 1, n + 3, int(np.iinfo(dbad).max)])
+    elif bad == "len":
+        if T > 1 and rng.random() < 0.5:
+            A.pop(rng.randrange(T))
+        else:
+            A.append(list(A[-1]))
+    elif bad == "len0":
+        del A[:]
+    c["dx"], c["dy"] = (dbad, dbad) if same else \
+        ((dbad, rng.choice(DTYPES)) if side == "X" else (rng.choice(DTYPES), dbad))
+    c["X"], c["Y"] = X, Y
+    if via == "mimat" and rng.random() < 0.5:                     # a well-formed trajectory pair is pooled first
+        L = rng.randint(1, 3)
+        c["lead"] = [[[rng.randrange(nx) for _ in range(fa)] for _ in range(L)],
+                     [[rng.randrange(ny) for _ in range(fb)] for _ in range(L)]]
+    return c
+
+
 def _gen_jcthr(rng, i):
     """long single-feature-pair inputs (1-D or (n, 1)), few states, counted with 1 and with many threads,
     several times: every table equals the single-thread table and a pure-NumPy count"""
@@ -543,6 +615,10 @@ def generate(rng, tier):
         cases.append(_gen_mihist(rng))
     for i in range(6 if tier == "quick" else 24):
         cases.append(_gen_jcthr(rng, i))
+    for _ in range(2 * k):
+        for via in VIAS:
+            for bad in XBADS:
+                cases.append(_gen_jcx(rng, via, bad))
     if tier == "thorough":
         # every dtype pair x every thread count on one fixed non-trivial input, and a thread sweep
         X = [[0, 1, 2], [1, 1, 0], [2, 0, 0], [1, 2, 1], [0, 1, 2]]
@@ -771,6 +847,51 @@ def _run_local(c):
                     "totals": jc.sum(axis=(2, 3), dtype=np.int64).tolist()}
         except Exception as ex:
             return {"err": type(ex).__name__}
+    if k == "jcx":
+        from enspara.info_theory import libinfo
+        _set_threads(c["thr"])
+
+        def arr(rows, dt, f):
+            a = np.zeros((0, f), dtype=dt) if len(rows) == 0 else np.array(rows, dtype=dt)
+            if c["strided"]:
+                big = np.zeros((a.shape[0], 3), dtype=dt)
+                big[:, 1:2] = a
+                a = big[:, 1:2]
+            return a
+        X, Y = arr(c["X"], c["dx"], c["fx"]), arr(c["Y"], c["dy"], c["fy"])
+        via = c["via"]
+        captured = []
+        orig = M.mutual_information
+
+        def spy(jc):
+            captured.append(np.array(jc))
+            return orig(jc)
+        try:
+            with warnings.catch_warnings():
+                warnings.simplefilter("ignore")
+                if via == "jc2d":
+                    jc = M.joint_counts(X, Y, c["nx"], c["ny"])
+                elif via == "jc1d":
+                    jc = M.joint_counts(X[:, 0], Y[:, 0], c["nx"], c["ny"])
+                elif via == "kernel1d":
+                    jc = np.asarray(libinfo.bincount2d(X[:, 0], Y[:, 0], c["nx"], c["ny"]))[None, None]
+                elif via == "kernel2d":
+                    jc = libinfo.matrix_bincount2d(X, Y, c["nx"], c["ny"])
+                else:
+                    M.mutual_information = spy
+                    Xs, Ys = [X], [Y]
+                    if c["lead"]:
+                        Xs.insert(0, np.array(c["lead"][0], dtype=c["dx"]))
+                        Ys.insert(0, np.array(c["lead"][1], dtype=c["dy"]))
+                    with np.errstate(all="ignore"):
+                        M.mi_matrix(Xs, Ys, c["nx"], c["ny"], normalize=False)
+                    jc = captured[0]
+            jc = np.asarray(jc)
+            return {"jc": jc.tolist(), "dtype": str(jc.dtype)}
+        except Exception as ex:
+            return {"err": type(ex).__name__}
+        finally:
+            M.mutual_information = orig
     if k == "jcthr":
         X, Y = _thr_data(c)
         ny = None if Y is None else c["nb"]
@@ -909,7 +1030,7 @@ def _cc_expected(c, rows, cols):
 def oracle(c, r):
     out = []
     k = c["kind"]
-    if isinstance(r, dict) and r.get("err") == "Crashed" and not (k == "jc" and c.get("bad")) and k != "jcmax":
+    if isinstance(r, dict) and r.get("err") == "Crashed" and not (k in ("jc", "jcx") and c.get("bad")) and k != "jcmax":
         return [("crash", "the interpreter died while running this input (exit %s): memory corruption in the "
                  "kernel" % r.get("rc"))]
     if isinstance(r, dict) and str(r.get("err", "")).startswith("Unexpected:"):
@@ -922,6 +1043,10 @@ def oracle(c, r):
         elif c["bad"] == "empty":
             if r.get("err") == "Crashed":
                 out.append(("reject-empty", "empty input crashed the interpreter"))
+            elif c["Y"] is not None and len(c["X"]) != len(c["Y"]) and "err" not in r:
+                # one array without frames against one with frames: feature arrays of different lengths
+                out.append(("reject-len", "feature arrays of %d and %d frames not rejected: %s" % (
+                    len(c["X"]), len(c["Y"]), str(r)[:200])))
         else:
             exp = _brute(*v)
             if r.get("jc") != exp:
@@ -1062,6 +1187,30 @@ def oracle(c, r):
                 idv, dt, n, str(sorted(got.items()))[:300], str(sorted(exp.items()))[:300])))
         if any(v != T for row in r["totals"] for v in row):
             out.append(("counts", "per-pair totals %s, every entry should be %d frames" % (r["totals"], T)))
+        return out
+    if k == "jcx":
+        entry = {"jc2d": "joint_counts (2-D arrays)", "jc1d": "joint_counts (1-D arrays)",
+                 "kernel1d": "libinfo.bincount2d", "kernel2d": "libinfo.matrix_bincount2d",
+                 "mimat": "mi_matrix"}[c["via"]]
+        what = "%s, X %s %s, Y %s %s, n_x=%d, n_y=%d" % (entry, c["dx"], c["X"], c["dy"], c["Y"], c["nx"], c["ny"])
+        if c["bad"]:
+            if "err" not in r or r["err"] == "Crashed":
+                key = {"wrap": "reject-wrap", "neg": "reject-neg", "big": "reject-big", "len": "reject-len",
+                       "len0": "reject-len"}[c["bad"]]
+                why = {"wrap": "state id %s outside [0, n) but congruent to the legal id %s modulo 2^%s" % (
+                           (c.get("wrap") or {}).get("id"), (c.get("wrap") or {}).get("legal"), (c.get("wrap") or {}).get("mod")),
+                       "neg": "negative state id", "big": "state id >= n", "len": "arrays of different lengths",
+                       "len0": "an array without frames against one with %d frames" % max(len(c["X"]), len(c["Y"]))}[c["bad"]]
+                out.append((key, "%s not rejected (%s): %s" % (why, what, str(r)[:200])))
+            return out
+        if "err" in r:
+            return [("counts", "valid input raised %s (%s)" % (r["err"], what))]
+        X, Y = c["X"], c["Y"]
+        if c["lead"]:
+            X, Y = c["lead"][0] + X, c["lead"][1] + Y
+        exp = _brute(X, Y, c["nx"], c["ny"])
+        if r.get("jc") != exp or r.get("dtype") != "uint32":
+            out.append(("counts", "%s: table %s %s != exact counts %s" % (what, r.get("dtype"), str(r.get("jc"))[:300], str(exp)[:300])))
         return out
     if k == "jcthr":
         if "err" in r:
@@ -1275,6 +1424,20 @@ def coq_check(c, r):
                 t, clist(c["Xs"], lambda x: _ndarr(x, "int64"), "ndarr"), clist(c["Ys"], lambda y: _ndarr(y, "int64"), "ndarr"),
                 _states(c["nx"]), _states(c["ny"]), exp)
         return t
+    if k == "jcx":
+        if r.get("err") == "Crashed":
+            return None
+        exp = "(Some %s)" % _n4(r["jc"]) if "jc" in r else "(@None tbl4)"
+        pairs = ([tuple(c["lead"])] if c["lead"] else []) + [(c["X"], c["Y"])]
+        if c["via"] == "mimat":
+            return "opt_eqb nl4_eqb (pooled_counts %s %s %s) %s" % (
+                clist(pairs, lambda p: "(%s, %s)" % (_zll(p[0]), _zll(p[1]))), cz(c["nx"]), cz(c["ny"]), exp)
+        t = "opt_eqb nl4_eqb (joint_counts %s (Some %s) (Some %s) (Some %s)) %s" % (
+            _zll(c["X"]), _zll(c["Y"]), cz(c["nx"]), cz(c["ny"]), exp)
+        if c["via"] in ("jc2d", "kernel2d"):
+            t = "(%s) && opt_eqb nl4_eqb (gen_matrix_bincount2d %s %s %s %s) %s" % (
+                t, _zll(c["X"]), _zll(c["Y"]), cz(c["nx"]), cz(c["ny"]), exp)
+        return t
     if k == "jcmax":
         if r.get("err") == "Crashed":
             return None
@@ -1352,6 +1515,8 @@ def coq_show(c):
     if k == "micont":
         xys = clist(list(zip(c["Xs"], c["Ys"])), lambda p: "(%s, %s)" % (_zll(p[0]), _zll(p[1])))
         return "pooled_counts %s %s %s" % (xys, cz(c["nx"]), cz(c["ny"]))
+    if k == "jcx":
+        return "joint_counts %s (Some %s) (Some %s) (Some %s)" % (_zll(c["X"]), _zll(c["Y"]), cz(c["nx"]), cz(c["ny"]))
     if k == "jcmax":
         return "match %s with Some _ => true | None => false end" % _jc_term(c)
     if k == "cc":
@@ -1374,6 +1539,8 @@ def nontrivial(c, r):
         return "err" not in r and [len(x) for x in c["Xs"]] == [len(y) for y in c["Ys"]]
     if k == "jcmax":
         return "err" not in r and c["id"] < c["n"]
+    if k == "jcx":
+        return (not c["bad"]) and "err" not in r and len(c["X"]) >= 2 and len({v for row in c["X"] + c["Y"] for v in row}) >= 2
     if k == "jcthr":
         return "err" not in r
     if k == "mitab":
@@ -1435,6 +1602,18 @@ def tags(c, r):
               "dtype-max-rejected" if "err" in r else "dtype-max-accepted"]
         if c["id"] == c["n"]:
             t.append("dtype-max-id-equals-n")
+    if k == "jcx":
+        b = c["bad"] or "valid"
+        t += ["via-" + c["via"], "jcx-" + b, "via-%s-%s" % (c["via"], b),
+              "jcx-rejected" if "err" in r and r["err"] != "Crashed" else "jcx-accepted"]
+        if c["bad"] == "wrap":
+            t += ["wrap-mod-2^%d" % c["wrap"]["mod"], "wrap-dtype-" + (c["dx"] if c["side"] == "X" else c["dy"])]
+        if c["bad"] == "len0":
+            t.append("len0-side-" + c["side"])
+        if c["strided"]:
+            t.append("jcx-strided-1d")
+        if c["lead"]:
+            t.append("jcx-pooled-after-valid-pair")
     if k == "jcthr":
         t.append("single-pair-threads" if (c["fa"], c["fb"]) == (1, 1) else "multi-pair-threads")
         t.append("thr-form-" + c["form"])
@@ -1464,7 +1643,10 @@ ESSENTIAL_TAGS = ["jc", "generated-text-evaluated", "generated-python-evaluated"
                   "traj-len-ktraj", "ragged-both-mismatch", "dtype-max-rejected", "dtype-max-accepted",
                   "dtype-max-id-equals-n", "dtype-max-side-X", "dtype-max-side-Y", "same-histograms", "hist-roll",
                   "hist-shuffle", "hist-balanced", "single-pair-threads", "thr-form-1d", "thr-form-col"] + \
-                 ["dtype-max-" + d for d in DTYPES]
+                 ["dtype-max-" + d for d in DTYPES] + \
+                 ["via-%s-%s" % (v, b or "valid") for v in VIAS for b in sorted(set(XBADS), key=str)] + \
+                 ["wrap-mod-2^8", "wrap-mod-2^16", "wrap-mod-2^32", "wrap-dtype-int64", "wrap-dtype-uint64",
+                  "len0-side-X", "len0-side-Y", "jcx-rejected", "jcx-accepted"]
 
 
 if __name__ == "__main__" and "--worker" in sys.argv:
